@@ -28,6 +28,17 @@ def format_query_argument(key, value, format_value=None):
 def format_url(
     base_url, path=None, args=None, format_arg_value=None, fragment=None, ext=None
 ):
+    # NOTE: the base url can come with a query and a fragment of its own, which
+    # must stay behind the path and before the arguments
+    base_query = None
+    base_fragment = None
+
+    if "#" in base_url:
+        base_url, base_fragment = base_url.split("#", 1)
+
+    if "?" in base_url:
+        base_url, base_query = base_url.split("?", 1)
+
     url = base_url
 
     # Path
@@ -44,21 +55,25 @@ def format_url(
         url += "." + ext.lstrip(".")
 
     # Arguments
+    items = [base_query] if base_query else []
+
     if args is not None:
         iterator = sorted(args.items()) if isinstance(args, dict) else iter(args)
 
-        items = [
+        items.extend(
             format_query_argument(k, v, format_arg_value)
             for k, v in iterator
             if v is not None and v is not False
-        ]
+        )
 
-        if items:
-            url += "?" + ("&".join(items))
+    if items:
+        url += "?" + ("&".join(items))
 
     # Fragment
     if fragment is not None:
         url += "#" + fragment.lstrip("#")
+    elif base_fragment is not None:
+        url += "#" + base_fragment
 
     return url
 
